@@ -241,6 +241,18 @@ pub fn prefill(quick: bool) -> Vec<Scenario> {
         .budgets(1, 0, 1, 2)
         .depth(12),
     ];
+    // two priorities sharing one request on two workers: one worker drains its assigned and pre-sent
+    // tasks while the other still holds a pre-sent high-priority task and only low-priority tasks wait
+    v.push(
+        Scenario::new(
+            "prefill-2w-two-prio",
+            vec![w(1), w(1)],
+            vec![vec![sub(arr(&[0, 1, 2, 3, 4], 1).prio(5)), sub(arr(&[0, 1], 1))]],
+        )
+        .prefill(0, 1)
+        .depth(if quick { 16 } else { 0 })
+        .cap(if quick { 400_000 } else { 2_000_000 }),
+    );
     // pre-sent tasks of two request classes on one worker, either job canceled
     v.push(
         Scenario::new(
@@ -586,6 +598,21 @@ pub fn open(quick: bool) -> Vec<Scenario> {
                 Req::JobDetail(1),
             ]],
         ),
+        // auto-assigned ids after explicit ones that do not start at 0 / leave a gap
+        Scenario::new(
+            "open-auto-after-explicit",
+            vec![w(1)],
+            vec![vec![
+                Req::OpenJob { max_fails: None },
+                sub(arr(&[5, 6], 1).into_job(1)),
+                sub(arr(&[], 1).into_job(1)),
+                sub(arr(&[1], 1).into_job(1)),
+                sub(arr(&[], 1).into_job(1)),
+                Req::CloseJob(1),
+                Req::JobDetail(1),
+            ]],
+        )
+        .depth(if quick { 10 } else { 0 }),
         // Appendix A #8: auto ids with entries into an open job that already has tasks
         Scenario::new(
             "open-entries",
@@ -830,6 +857,15 @@ pub fn journal(quick: bool) -> Vec<Scenario> {
         )
         .journal()
         .budgets(1, 0, 1, 2),
+        // crash limit 1: the journal can end between the WorkerLost record that reaches the limit and
+        // the TaskFailed record that follows it
+        Scenario::new(
+            "journal-kill-limit1",
+            vec![w(1), w(1).spare()],
+            vec![vec![sub(arr(&[0], 1).crash_limit("1"))]],
+        )
+        .journal()
+        .budgets(1, 0, 1, 2),
         // the other loss reasons (only failures count as crashes, also after a restart)
         Scenario::new(
             "journal-kill-reasons",
@@ -848,6 +884,29 @@ pub fn journal(quick: bool) -> Vec<Scenario> {
                 sub(arr(&[], 1).into_job(1)),
                 Req::CloseJob(1),
             ]],
+        )
+        .journal(),
+        // an open job whose later submit depends on a task of an earlier submit
+        Scenario::new(
+            "journal-open-deps",
+            vec![w(1)],
+            vec![vec![
+                Req::OpenJob { max_fails: None },
+                sub(SubmitSpec::graph(&[(0, &[])], RqSpec::cpus(1)).into_job(1)),
+                sub(SubmitSpec::graph(&[(1, &[0])], RqSpec::cpus(1)).into_job(1)),
+                Req::CloseJob(1),
+            ]],
+        )
+        .journal()
+        .budgets(0, 1, 0, 1),
+        // an open job that is canceled before its tasks ever started, then gets another submit
+        Scenario::new(
+            "journal-open-cancel",
+            vec![w(1)],
+            vec![
+                vec![Req::OpenJob { max_fails: None }, sub(arr(&[0, 1], 1).into_job(1))],
+                vec![Req::Cancel(1), sub(arr(&[5], 1).into_job(1))],
+            ],
         )
         .journal(),
         Scenario::new(
